@@ -113,13 +113,20 @@ func genSched(r *vh.Rand, id int) *pkgCase {
 				}
 			}
 		case "var", "func":
-			cand := append(append(append(append([]int{}, consts...), intvals...), funcs...), gofuncs...)
+			// only smaller ids (plus self-recursion of a func): a variable that is requested
+			// while its own initialiser is being compiled is "undefined" (the loader has
+			// already removed it from syms) – kept out of the predictable subset
+			var cand []int
+			for _, pool := range [][]int{consts, intvals, funcs, gofuncs} {
+				for _, d := range pool {
+					if d < s.id || (d == s.id && s.kind == "func") {
+						cand = append(cand, d)
+					}
+				}
+			}
 			k := r.Intn(4)
 			for j := 0; j < k && len(cand) > 0; j++ {
 				d := cand[r.Intn(len(cand))]
-				if d == s.id && s.kind == "var" {
-					continue
-				}
 				dup := false
 				for _, e := range s.deps {
 					dup = dup || e == d
@@ -504,6 +511,10 @@ func genRich(r *vh.Rand, id int, withErr bool) *pkgCase {
 				g.w(f, "var (\n\thp int\n)\n\nfunc onInit() {\n\thp = %s\n\tsay \"hi\"\n}\n\n", g.intExpr("3"))
 			}
 			if kind == 2 { // a second project kind in the same package
+				if r.Chance(85) {
+					g.files["main.t2gmx"] = &strings.Builder{}
+					g.w("main.t2gmx", "func onB() int {\n\treturn %s\n}\n\n", g.intExpr("2"))
+				}
 				g.files["Dog.t2spx"] = &strings.Builder{}
 				g.w("Dog.t2spx", "func bark() int {\n\treturn %s\n}\n\n", g.intExpr("4"))
 			}
